@@ -45,7 +45,7 @@ def comp(s):
 
 
 # ---- schema family ---------------------------------------------------------------------------------------------------
-def schema_ast(depth, shared, constrained, two_roots=False):
+def schema_ast(depth, shared, constrained, two_roots=False, loose=False):
     rules = [{'id': '#KEY', 'name': [{'lit': 'KEY'}, {'pat': '_'}, {'pat': '_'}, {'pat': '_'}], 'cons': [], 'sign': []},
              {'id': '#anchor', 'name': [{'lit': 'site'}, {'ref': '#KEY'}], 'cons': [], 'sign': []}]
     prev = '#anchor'
@@ -56,7 +56,14 @@ def schema_ast(depth, shared, constrained, two_roots=False):
                       'sign': [prev]})
         prev = f'#l{i}'
     pat = 'u' if shared else 'ud'
-    rules.append({'id': '#data', 'name': [{'lit': 'site'}, {'lit': 'data'}, {'pat': pat}, {'pat': '_'}], 'cons': [], 'sign': [prev]})
+    signers = [prev]
+    if loose and depth >= 1:
+        # a schema that (also) lets bare KEY names - which no certificate carries - sign data: what such a key locator names cannot
+        # be retrieved, so no chain goes through it
+        rules.append({'id': '#barekey', 'name': [{'lit': 'site'}, {'lit': f'l{depth}'}, {'pat': pat}, {'lit': 'KEY'}, {'pat': '_'}],
+                      'cons': [], 'sign': ['#anchor']})       # (signed by something, so that it is no root of trust)
+        signers.append('#barekey')
+    rules.append({'id': '#data', 'name': [{'lit': 'site'}, {'lit': 'data'}, {'pat': pat}, {'pat': '_'}], 'cons': [], 'sign': signers})
     if two_roots:
         # a second, independent root of trust that the (single) trust anchor does not match
         rules.append({'id': '#anchor2', 'name': [{'lit': 'othersite'}, {'ref': '#KEY'}], 'cons': [], 'sign': []})
@@ -179,7 +186,7 @@ def _verify(sig_type, pub, signed, sig):
 
 # ---- deviations --------------------------------------------------------------------------------------------------------------
 DEVIATIONS = ['none', 'bad-name', 'forged-sig', 'substituted-key', 'kl-elsewhere', 'missing-cert', 'nack-cert', 'unsigned',
-              'digest-only', 'loop', 'wrong-signer-level', 'wrong-id', 'hmac-with-public-key', 'kl-wrong-digest', 'cert-as-packet']
+              'digest-only', 'loop', 'wrong-signer-level', 'wrong-id', 'hmac-with-public-key', 'kl-wrong-digest', 'cert-as-packet', 'kl-truncated']
 
 
 def build_packets(h, spec, store, policy):
@@ -208,6 +215,10 @@ def build_packets(h, spec, store, policy):
         # such packet can be retrieved, so the chain is not valid
         c = h.certs[d]
         out.append((dev, *h.data_packet(who, 1, kl=c['name'] + [T.enc_tlv(1, b'\x5a' * 32)])))
+    elif dev == 'kl-truncated':
+        # the key locator stops at the key name: a proper prefix of the certificate's name, itself the name of nothing
+        c = h.certs[d]
+        out.append((dev, *h.data_packet(who, 1, kl=c['name'][:-2])))
     elif dev == 'cert-as-packet':
         # certificates are Data packets and may be validated like any other: the genuine one of each level, and a forged copy
         # (same name, content and signature made with another key) - also AFTER the genuine one went through the validator
@@ -327,6 +338,9 @@ def _run(sim, case, r):
         except T.Malformed:
             return
         fetch_log.append(nm)
+        if P.strict_interest(w)['can_be_prefix'] and nm not in store:
+            # the network honours CanBePrefix: any Data under the name answers the Interest
+            nm = next((k for k in sorted(store) if k[:len(nm)] == nm), nm)
         pol = policy.get(nm, 'serve')
         if pol == 'silent':
             return
@@ -347,7 +361,8 @@ def _run(sim, case, r):
     validators = []
     for vi, vs in enumerate(case['validators']):
         h = hiers[vs['hier'] % len(hiers)]
-        sch = schema_ast(h.spec['depth'], h.spec['shared'], h.spec['constrained'], two_roots=vs.get('bad_anchor') == 'two-roots')
+        sch = schema_ast(h.spec['depth'], h.spec['shared'], h.spec['constrained'], two_roots=vs.get('bad_anchor') == 'two-roots',
+                         loose=h.spec['deviation'] == 'kl-truncated' or bool(h.spec.get('loose')))
         text = L.render(sch, 0)
         try:
             checker = Checker(compile_lvs(text), {})
@@ -560,7 +575,8 @@ def _hier(draw):
     if draw(st.integers(0, 9)) == 0:
         keys[draw(st.integers(0, depth))] = 'ed25519-0'
     return {'depth': depth, 'keys': keys, 'shared': draw(st.booleans()), 'constrained': draw(st.booleans()),
-            'ids': draw(st.permutations(IDS)), 'deviation': draw(st.sampled_from(DEVIATIONS)), 'link': draw(st.integers(0, 4))}
+            'ids': draw(st.permutations(IDS)), 'deviation': draw(st.sampled_from(DEVIATIONS)), 'link': draw(st.integers(0, 4)),
+            'loose': draw(st.integers(0, 5)) == 0}
 
 
 @st.composite
@@ -660,6 +676,64 @@ def run_many(case):
     return r
 
 
+def run_burst(case):
+    """ONE cold validator instance is asked about a burst of K valid packets at the same time (each needs the whole chain of
+    not yet cached certificates): every one of them gets its verdict - accepted."""
+    r = Result()
+    secv2.timestamp = lambda: 1_700_000_000_000
+    _reset_default_caches()
+    sim = AppSim('legacy')
+    sim.start()
+    try:
+        store = {}
+        face, loop = sim.face, sim.vl.loop
+        orig_send = face.send
+
+        def send(data):
+            orig_send(data)
+            w = bytes(data)
+            if net.outer_type(w) != 5:
+                return
+            try:
+                nm = tuple(P.strict_interest(w)['name'])
+            except T.Malformed:
+                return
+            cw = store.get(nm)
+            if cw is not None:
+                loop.call_later(case['latency_ms'] / 1000, lambda: loop.create_task(sim.app.face.callback(6, cw)))
+        face.send = send
+        spec = {'depth': case['depth'], 'keys': case['keys'][:case['depth'] + 1], 'shared': True, 'constrained': False, 'ids': IDS,
+                'deviation': 'none', 'link': 0}
+        h = Hier(spec, 'B', store)
+        checker = Checker(compile_lvs(L.render(schema_ast(case['depth'], True, False), 0)), {})
+        v = sim.vl.call(lvs_validator, checker, sim.app, h.anchor_wire)
+        wires = [h.data_packet(IDS[0], i)[1] for i in range(case['k'])]
+        for rnd in range(2):
+            got = _validate_many(sim, v, wires, r)
+            if got is None:
+                return r
+            if not all(got):
+                return r.bad(f'C14/burst/rejects-valid-chain/round-{rnd}', f'{got.count(False)} of {len(got)} valid packets refused (depth {case["depth"]})')
+    finally:
+        try:
+            sim.finish()
+        except Exception:
+            if not getattr(sim, 'dead', False):
+                raise
+        finally:
+            sim.close()
+    r.key = (case['k'], case['depth'], case['latency_ms'])
+    r.classes = (f'burst:{case["k"]}', f'depth:{case["depth"]}')
+    return r
+
+
+def _burst_case():
+    ecrsa = [k for k in KEYPOOL if K.KEYS[k]['kind'] in ('ec', 'rsa')]
+    return st.fixed_dictionaries({'k': st.sampled_from([40, 20, 12, 8, 17, 33, 64]), 'depth': st.sampled_from([4, 3, 2]),
+                                  'latency_ms': st.sampled_from([0, 1, 10]),
+                                  'keys': st.lists(st.sampled_from(ecrsa), min_size=5, max_size=5)})
+
+
 def _many_case():
     return st.fixed_dictionaries({'n_users': st.sampled_from([66, 65, 70, 130, 129, 33]), 'rot': st.integers(0, 6),
                                   'anchor_key': st.sampled_from(['p256-0', 'p256-1', 'rsa1024-0'])})
@@ -669,5 +743,7 @@ SUBCHECKS = {
     'many-certificates': SubCheck(run_many, strategy=lambda tier: _many_case(), examples={'quick': 16, 'thorough': 80},
                                   note='one validator instance validates packets of 33..130 users (one certificate each), then the '
                                        'first users again and a cross-signed forgery'),
+    'burst': SubCheck(run_burst, strategy=lambda tier: _burst_case(), examples={'quick': 16, 'thorough': 200},
+                      note='8..64 valid packets validated at the same time by one cold instance, chains of depth 2..4'),
     'histories': SubCheck(run_case, strategy=lambda tier: _case(), examples={'quick': 500, 'thorough': 10000}),
 }
